@@ -114,9 +114,9 @@ def C05(c):
     rng = c.rng
     formats = fmts(c, ["list", "dict_str"], ["list", "dict_str", "dict_int", "names_valueof"])
     c.corr("corpus", corpus("C05"), combos_of(formats, [PT]), judge=J.judge_cover)
-    ex = C.exhaustive_cover_cases(C.COVERS, c.n([6], [6, 12]), c.n(4, 5))
+    ex = C.exhaustive_cover_cases(C.COVERS, c.n([6, 7], [6, 7, 12]), c.n(4, 5))
     c.corr("exhaustive", ex, combos_of(["list"], [PT]), judge=J.judge_cover)
-    c.exhaustive_scopes.append(f"all multisets of <= {c.n(4,5)} values from 1..B+2 (ascending and descending arrival), B in {c.n([6],[6,12])}")
+    c.exhaustive_scopes.append(f"all multisets of <= {c.n(4,5)} values from 1..B+2 (ascending and descending arrival), B in {c.n([6,7],[6,7,12])}")
     c.corr("random", C.random_cover_cases(rng, C.COVERS, c.n(300, 4000)), combos_of(formats, [PT]), judge=J.judge_cover)
 
 
@@ -550,6 +550,8 @@ def C20(c):
         n = rng.randint(1, 6)
         sums = [rng.randint(0, 60) for _ in range(n)]
         ws = [rng.choice([1, 2, 3, 4, 5, 7, 8, 10, Fraction(1, 2), Fraction(3, 4), Fraction(5, 8)]) for _ in range(n)]
+        if rng.random() < 0.25:
+            ws = [ws[0]] * n          # all weights equal (and usually different from 1)
         wline = "[" + ",".join(f"{Fraction(w).numerator}/{Fraction(w).denominator}" for w in ws) + "]"
         def thunk(sums=sums, ws=ws):
             r = obj.MaximizeSmallestWeightedSum([float(w) for w in ws]).value_to_minimize(list(sums))
@@ -568,6 +570,8 @@ def C20(c):
         if got != want:
             c.disagreements.append({"stream": "weighted", "alg": "weighted", "case": {"vals": label["vals"], "p": label}, "fmt": "direct",
                                     "outtype": "-", "impl": got, "model": want, "request": line})
+        doc = float(-min(Fraction(sv) / Fraction(wv) for sv, wv in zip(label["vals"], label["weights"])))      # the documented quantity, computed independently
+        c.check_direct("objective.weighted", label, "documented-quantity", got == doc, got, f"minus the smallest weight-normalised sum: {doc}")
     # the weighted objective refuses the sorted flag
     try:
         obj.MaximizeSmallestWeightedSum([1, 2]).value_to_minimize([1, 2], are_sums_in_ascending_order=True)
@@ -742,6 +746,8 @@ def run_length(alg_key, case):
         m.time = clock
         try:
             prtpy.partition(algorithm=prt.cg, numbins=p["k"], items=list(vals), outputtype=out.Sums, **ALGS["cg"].kwargs(dict(p, cut=None)))
+        except Exception:      # noqa  (judged by the correspondence / certified evaluation of the unlimited run, not here)
+            pass
         finally:
             m.time = real_time
     else:
@@ -749,6 +755,8 @@ def run_length(alg_key, case):
         m.time = clock
         try:
             prtpy.partition(algorithm=prt.cbldm, numbins=2, items=list(vals), outputtype=out.Sums, **ALGS["cbldm"].kwargs(dict(p, cut=None)))
+        except Exception:      # noqa
+            pass
         finally:
             m.time = real_time
     return clock.t
@@ -943,7 +951,8 @@ class OpSeq:
                 for val in values[: (2 if small else len(values))]:
                     res.append(("add", h, self.next_item, val, i))
             res.append(("copy", h)); res.append(("sort", h))
-            res.append(("addempty", h, 1))
+            for ne in ((1, 2) if small else (0, 1, 2, 3)):
+                res.append(("addempty", h, ne))
             for r in sorted({0, 1, n} & set(range(0, n + 1))):
                 res.append(("remove", h, r))
             for h2 in L:
@@ -1167,10 +1176,10 @@ def C14(c):
     c.corr("exhaustive-part", ex, combos_of(["list"], [PT]), judge=judge)
     exp = C.exhaustive_pack_cases(C.PACKERS, c.n([4, 6], [4, 6, 7]), c.n(4, 5), all_orders_upto=c.n(4, 5))
     c.corr("exhaustive-pack", exp, combos_of(["list"], [PT]), judge=judge)
-    exc = C.exhaustive_cover_cases(C.COVERS, c.n([6], [6, 12]), c.n(5, 6))
+    exc = C.exhaustive_cover_cases(C.COVERS, c.n([6, 7], [6, 7, 12]), c.n(5, 6))
     c.corr("exhaustive-cover", exc, combos_of(["list"], [PT]), judge=judge)
     c.exhaustive_scopes.append(f"greedy/round-robin: multisets of <= {c.n(5,6)} values 0..{c.n(4,5)}, k in {c.n([1,2,3],[1,2,3,4])}; fit heuristics: every arrival order of "
-                               f"multisets of <= {c.n(4,5)} values 1..B, B in {c.n([4,6],[4,6,7])}; covers: multisets of <= {c.n(5,6)} values 1..B+2, B in {c.n([6],[6,12])} (thresholds B/2, B/3 hit exactly)")
+                               f"multisets of <= {c.n(4,5)} values 1..B, B in {c.n([4,6],[4,6,7])}; covers: multisets of <= {c.n(5,6)} values 1..B+2, B in {c.n([6,7],[6,7,12])} (thresholds B/2, B/3 hit exactly; odd B: floor(B/2) below the threshold)")
     c.corr("random-part", C.random_part_cases(rng, part, c.n(300, 4000), nmax=30), combos_of(["list"], [PT]), judge=judge)
     c.corr("random-pack", C.random_pack_cases(rng, C.PACKERS, c.n(300, 4000), nmax=c.n(20, 40)), combos_of(["list"], [PT]), judge=judge)
     c.corr("random-cover", C.random_cover_cases(rng, C.COVERS, c.n(400, 5000), nmax=c.n(20, 40)), combos_of(["list"], [PT]), judge=judge)
@@ -1185,6 +1194,7 @@ class MipCapture:
         self.orig = mip.Model.optimize
         self.last = None
         self.preprocess_off = False
+        self.force_status = None
 
     def __enter__(self):
         cap = self
@@ -1199,7 +1209,11 @@ class MipCapture:
                         "sense": model.sense, "nvars": len(model.vars), "integer": all(v.var_type == "I" for v in model.vars)}
             if cap.preprocess_off:
                 model.preprocess = 0
-            return cap.orig(model, *a, **kw)
+            st = cap.orig(model, *a, **kw)
+            cap.last["status"] = str(st)
+            if cap.force_status is not None and st == cap.mip.OptimizationStatus.OPTIMAL:
+                return cap.force_status      # fault injection at the solver boundary: "a solution, but optimality not proved"
+            return st
         self.mip.Model.optimize = wrapped
         return self
 
@@ -1391,6 +1405,15 @@ def C17(c):
                 ok = J._is_err(got2) and got2["error"] == "ValueError"
             c.check_direct("ilp", dict(label, weights_arg=[w] * sp["k"]), "equal-weights-change-result", ok, got2,
                            f"the same optimal value as without weights ({om}), sums ascending")
+    # (4) the solver does not prove optimality (time limit hit with a solution in hand, ...): an error, never a partition
+    with MipCapture() as capf:
+        for sp, line, label, got, om, names in ctx[: c.n(40, 300)]:
+            for st in (capf.mip.OptimizationStatus.FEASIBLE, capf.mip.OptimizationStatus.NO_SOLUTION_FOUND):
+                capf.force_status = st
+                gotf, _ = ilp_call(sp, capf, names)
+                c.check_direct("ilp", dict(label, solver_status=str(st)), "unproven-optimality-accepted", J._is_err(gotf) and gotf["error"] == "ValueError", gotf,
+                               f"ValueError when the solver's status is {st} (optimality not proved)")
+        capf.force_status = None
     c.assumptions.append("CBC / python-mip returns an optimal feasible point of the model it is given or a non-OPTIMAL status; certified per run against the "
                          "brute-force optimum of the Lean formulation; a wrong OPTIMAL answer that becomes right with preprocess=0 is counted as solver_fault")
 
@@ -1534,7 +1557,7 @@ def C18(c):
     EXACT = ["cg", "ckk", "snp", "rnp", "dp", "ilp", "cbldm"]
     base = C.random_part_cases(rng, ["greedy", "roundrobin", "multifit", "kk"], c.n(60, 600), nmax=20)
     base += C.random_pack_cases(rng, C.PACKERS, c.n(60, 600))
-    base += C.random_cover_cases(rng, C.COVERS, c.n(60, 600))
+    base += C.random_cover_cases(rng, C.COVERS, c.n(200, 1500), Bs=(4, 5, 6, 7, 9, 12, 15, 20, 31, 100))
     ex = C.random_part_cases(rng, EXACT, c.n(40, 400), objs=C.OBJS5)
     ex = [e for e in ex if not (e["alg"] == "rnp" and e["p"]["k"] >= 6)]
     for e in ex:
@@ -1648,7 +1671,31 @@ def C15(c):
     """calls are pure: inputs untouched, results repeatable, no state across calls"""
     rng = c.rng
     from engine import impl_map
-    pool_cases = all_algs_cases(c, rng, c.n(12, 60))
+    pool_cases = all_algs_cases(c, rng, c.n(20, 60))
+    # every algorithm also on inputs with zero-valued items (the classic place for in-place "clean-ups" of the argument)
+    for e in all_algs_cases(c, rng, c.n(6, 20)):
+        vals = list(e["vals"]) or [0]
+        for _ in range(rng.randint(1, 2)):
+            vals.insert(rng.randrange(len(vals) + 1), 0)
+        if len(vals) <= C.max_n(e["alg"]) + 2:
+            pool_cases.append(dict(e, vals=vals, force_fmt="list"))
+            pool_cases.append(dict(e, vals=vals))
+    # sibling calls: the same items under a different bin size / bin count (state keyed on the items alone would leak between them)
+    sib = []
+    for e in pool_cases:
+        if rng.random() < 0.5:
+            p2 = dict(e["p"])
+            if "B" in p2:
+                p2["B"] = max(max(e["vals"] + [1]), p2["B"] + rng.choice([-3, -2, -1, 1, 2, 3, 5]))
+            elif e["alg"] not in ("cbldm",):
+                p2["k"] = max(1, min(p2["k"] + rng.choice([-1, 1]), 5))
+            if p2 != e["p"]:
+                sib.append({"alg": e["alg"], "vals": list(e["vals"]), "p": p2})      # (format drawn afresh)
+    pool_cases += sib
+    for _ in range(c.n(8, 40)):       # bin completion: one item list, two bin sizes, the branching search runs for both
+        vals, b1, b2 = gen.hard_bc_pair(rng)
+        for b in (b1, b2):
+            pool_cases.append({"alg": "bin_completion", "vals": list(vals), "p": {"B": b}, "force_fmt": rng.choice(["list", "array"])})
     pool_cases += C.random_pack_cases(rng, C.PACKERS + ["bin_completion"], c.n(6, 30), oversize=1.0)          # failing calls
     pool_cases += [{"alg": "cbldm", "vals": gen.rand_vals(rng, 4), "p": {"k": 3, "d": None, "cut": None}} for _ in range(c.n(4, 20))]   # ValueError
     pool_cases += [{"alg": "rnp", "vals": gen.rand_vals(rng, 7, "small"), "p": {"k": 6}} for _ in range(c.n(3, 10))]                  # KF1 calls interleaved
@@ -1656,7 +1703,7 @@ def C15(c):
                    for _ in range(c.n(10, 50))]                                                                  # interrupted anytime runs
     calls = []
     for e in pool_cases:
-        fmt = rng.choice(FORMATS)
+        fmt = e.pop("force_fmt", None) or rng.choice(FORMATS)
         ot = rng.choice(OUTTYPES)
         names = names_for(fmt, e["vals"], random.Random(sha([e["vals"], fmt])))
         calls.append((e, fmt, ot, names))
@@ -1673,7 +1720,7 @@ def C15(c):
         lines.append(alg.request(e, ids, ot not in SUMS_ONLY))
     answers = model_query(lines)
     # histories: random call sequences in THIS interpreter
-    n_hist = c.n(6, 40)
+    n_hist = c.n(10, 40)
     for hno in range(n_hist):
         L = rng.randint(20, c.n(120, 200))
         seq = [rng.randrange(len(calls)) for _ in range(L)]
